@@ -10,6 +10,27 @@ VERIF = os.path.dirname(HERE)
 PENDING_REASON = "check not built yet (work in progress; DESIGN.md section 9 gives the build order)"
 
 CLAIMED = {
+    "C05": {
+        "text": "Theorem dop_sound in Coq (coq/Props/C05.v, 10 obligations, closed under the global context): the executable "
+                "model of DifferentialOperator.eval (atoms kept as canonical derivative atoms, function-free expressions by "
+                "symbolic differentiation incl. the chain rule through mapping components, Add, Mul with coefficient "
+                "extraction and 1/2/n-factor Leibniz, Pow by the logarithmic rule, refusal otherwise) returns an expression "
+                "that denotes D_i of its argument for EVERY expression tree, every operator dx..dz/dx1..dx3 and every "
+                "differential field (the abstract structure standing for all smooth functions and points); corollaries: "
+                "additivity, Leibniz, linearity over constants, vanishing on constants, commuting mixed partials, canonical "
+                "atoms for re-ordered chains, refusal of unsupported functions of fields. Tie to the code: on every run the "
+                "real operators are applied to generated expressions and their output is proved equal (kernel-checked, per "
+                "case, by the verified field-equality checker tequiv) both to the model's output and to the reference "
+                "derivative; an independent numeric oracle (explicit polynomials + sympy.diff) searches failing inputs.",
+        "design_ref": "DESIGN.md section 5 C05",
+        "note": "Trusted: Coq kernel + vm_compute; hand model tied by correspondence only; serialiser tools/impl/ser.py (incl. "
+                "exponent law for integer shifts of general powers); sympy arithmetic and sympy.diff are modelled, not "
+                "verified; the reading of 'all smooth functions/points' as 'every dfield' (DESIGN 4.2, inhabitedness of "
+                "dfield is a mathematical meta-argument, not formalised); only scalar arguments (vectors/matrices are "
+                "entry-wise); mixed physical/logical chains not modelled.",
+        "technique": "Coq proof by structural induction over expression trees in an abstract differential field + "
+                     "per-case kernel-checked equivalence (reflexive field normaliser) against the implementation",
+    },
     "C14": {
         "text": "Theorems in Coq (coq/Props/C14.v, 16 obligations, closed under the global context) about an executable model "
                 "of Union.__new__/complement/iteration: the result is the sorted duplicate-free list of exactly the supplied "
